@@ -1,5 +1,7 @@
 import ZV.Model.C10
 import ZV.Proofs.C10
+import ZV.Proofs.C10Ext
+import ZV.Proofs.C10First
 /-!
   C10 — the PKI graph is determined by its certificate set.
 
@@ -268,6 +270,211 @@ theorem graph_order_independent_exact (V : Ver) (ops ops' : List Op) (hp : ops.P
       exact ⟨e', he', h⟩
 
 
+/-! ### which issuer is chosen -/
+
+/-- The only freedom the property leaves is pinned down: after ANY operation sequence the issuer of every
+    edge is the FIRST node in creation order (`g.nodes`) that has the certificate's issuer name and whose key
+    verifies it, `nil` if there is none — whether the edge was linked by the direct search or by the
+    dangling-edge fix-up.  (Implies `issuer_is_verifying_node` and `no_issuer_iff_no_verifying_node`.) -/
+theorem issuer_is_first_verifying_node {V : Ver} {ops : List Op} {g : Graph}
+    (hr : run V Graph.empty ops = .ok g) :
+    ∀ e ∈ g.edges, e.issuer = firstVer V (g.nodes.map (·.key)) e.cert.iss e.cert.fp :=
+  run_first ops (inv_empty V) (firstIss_empty V) hr
+
+/-- "The PKI graph is determined by its certificate set": two histories with the same certificates and the
+    same root certificates — any permutation, any number of duplicates, `AddCert c` before or after
+    `AddRoot c` or not at all — give the same graph up to the choice among several verifying issuers. -/
+theorem graph_determined_by_certificate_sets (V : Ver) (ops ops' : List Op) (hs : SameCerts ops ops')
+    (hfp : FpInj ops) :
+    ∃ g g', run V Graph.empty ops = .ok g ∧ run V Graph.empty ops' = .ok g' ∧ SameUpToIssuerChoice V g g' := by
+  have hfp' : FpInj ops' := hfp.congrCerts hs
+  obtain ⟨g, hr, hw, hh⟩ := graph_inv V ops hfp
+  obtain ⟨g', hr', hw', hh'⟩ := graph_inv V ops' hfp'
+  have hh2 : Hist ops g' := hh'.congrCerts hs.symm
+  exact ⟨g, g', hr, hr', subGraph_of_hist hfp (fun _ => Iff.rfl) hw hh hw' hh2,
+    subGraph_of_hist hfp (fun _ => Iff.rfl) hw' hh2 hw hh⟩
+
+/-- … and if the two histories create the nodes in the same order, the graphs have exactly the same edges,
+    issuers included (no ambiguity hypothesis). -/
+theorem graph_determined_by_certificate_sets_and_node_order (V : Ver) (ops ops' : List Op)
+    (hs : SameCerts ops ops') (hfp : FpInj ops) {g g' : Graph}
+    (hr : run V Graph.empty ops = .ok g) (hr' : run V Graph.empty ops' = .ok g')
+    (hord : g.nodes.map (·.key) = g'.nodes.map (·.key)) :
+    (∀ e ∈ g.edges, e ∈ g'.edges) ∧ (∀ e ∈ g'.edges, e ∈ g.edges) := by
+  obtain ⟨g1, g1', h1, h1', hsub, hsub'⟩ := graph_determined_by_certificate_sets V ops ops' hs hfp
+  rw [hr] at h1; cases h1
+  rw [hr'] at h1'; cases h1'
+  have hfi := issuer_is_first_verifying_node hr
+  have hfi' := issuer_is_first_verifying_node hr'
+  constructor
+  · intro e he
+    obtain ⟨e', he', hc, hch, hro, _⟩ := hsub.edges e he
+    have hi : e'.issuer = e.issuer := by rw [hfi e he, hfi' e' he', hc, hord]
+    have : e' = e := by cases e; cases e'; simp_all
+    rw [← this]; exact he'
+  · intro e' he'
+    obtain ⟨e, he, hc, hch, hro, _⟩ := hsub'.edges e' he'
+    have hi : e.issuer = e'.issuer := by rw [hfi e he, hfi' e' he', hc, hord]
+    have : e = e' := by cases e; cases e'; simp_all
+    rw [← this]; exact he
+
+/-! ### the public observers -/
+
+/-- `IsRoot(c)` ⇔ `c` was ever passed to `AddRoot` -/
+theorem isRoot_iff {V : Ver} {ops : List Op} {g : Graph} (c : Cert) (hfp : FpInj (Op.add c :: ops))
+    (hr : run V Graph.empty ops = .ok g) : isRoot g c = true ↔ Op.root c ∈ ops := by
+  have hfp0 : FpInj ops := hfp.mono (fun o ho => List.mem_cons_of_mem _ ho)
+  obtain ⟨g', hr', hwf, hh⟩ := graph_inv V ops hfp0
+  rw [hr] at hr'; cases hr'
+  unfold isRoot
+  cases hf : findEdge g.edges c.fp with
+  | none =>
+    simp only [Bool.false_eq_true, false_iff]
+    intro hin
+    obtain ⟨e, he, hfe⟩ := (hh.edges c.fp).mpr ⟨_, hin, rfl⟩
+    have : (findEdge g.edges c.fp).isSome = true := findEdge_isSome_iff.mpr ⟨e, he, hfe⟩
+    rw [hf] at this; cases this
+  | some e =>
+    simp only
+    obtain ⟨he, hfe⟩ := findEdge_some hf
+    rw [roots_are_added_roots hfp0 hr e he]
+    obtain ⟨o, ho, hoc⟩ := hh.certs e he
+    have : e.cert = c := by
+      rw [← hoc]
+      exact hfp o (List.mem_cons_of_mem _ ho) (Op.add c) List.mem_cons_self (by rw [hoc]; exact hfe)
+    rw [this]
+
+/-- `FindEdge(fingerprint of c) != nil` ⇔ `c` was inserted (by `AddCert` or `AddRoot`) -/
+theorem findEdgeOk_iff {V : Ver} {ops : List Op} {g : Graph} (c : Cert) (hfp : FpInj (Op.add c :: ops))
+    (hr : run V Graph.empty ops = .ok g) : findEdgeOk g c = true ↔ ∃ op ∈ ops, op.cert = c := by
+  have hfp0 : FpInj ops := hfp.mono (fun o ho => List.mem_cons_of_mem _ ho)
+  obtain ⟨g', hr', _, hh⟩ := graph_inv V ops hfp0
+  rw [hr] at hr'; cases hr'
+  unfold findEdgeOk
+  rw [findEdge_isSome_iff, hh.edges c.fp]
+  constructor
+  · rintro ⟨o, ho, hfo⟩
+    exact ⟨o, ho, hfp o (List.mem_cons_of_mem _ ho) (Op.add c) List.mem_cons_self hfo⟩
+  · rintro ⟨o, ho, hc⟩
+    exact ⟨o, ho, by rw [hc]⟩
+
+/-- `FindNode(subject+key fingerprint of c) != nil` ⇔ some inserted certificate has the subject and key of `c` -/
+theorem findNodeOk_iff {V : Ver} {ops : List Op} {g : Graph} (c : Cert) (hfp : FpInj ops)
+    (hr : run V Graph.empty ops = .ok g) : findNodeOk g c = true ↔ ∃ op ∈ ops, op.cert.sk = c.sk := by
+  obtain ⟨g', hr', _, hh⟩ := graph_inv V ops hfp
+  rw [hr] at hr'; cases hr'
+  unfold findNodeOk
+  rw [findNode_isSome_iff, hh.nodes c.sk]
+
+/-- `len(Nodes())` = number of distinct (subject, SPKI) pairs, `len(Edges())` = number of distinct certificates -/
+theorem nodes_edges_count {V : Ver} {ops : List Op} {g : Graph} (hfp : FpInj ops)
+    (hr : run V Graph.empty ops = .ok g) :
+    nodesLen g = ((ops.map (·.cert.sk)).dedup).length ∧ edgesLen g = ((ops.map (·.cert.fp)).dedup).length := by
+  obtain ⟨h1, h2⟩ := one_node_per_subject_key hfp hr
+  obtain ⟨g', hr', hwf, hh⟩ := graph_inv V ops hfp
+  rw [hr] at hr'; cases hr'
+  constructor
+  · unfold nodesLen
+    rw [← List.length_map (f := (·.key))]
+    apply List.Perm.length_eq
+    rw [List.perm_ext_iff_of_nodup h1 (List.nodup_dedup _)]
+    intro k
+    rw [h2 k, List.mem_dedup, List.mem_map]
+  · unfold edgesLen
+    rw [← List.length_map (f := (·.cert.fp))]
+    apply List.Perm.length_eq
+    rw [List.perm_ext_iff_of_nodup hwf.edgesNodup (List.nodup_dedup _)]
+    intro fp
+    rw [List.mem_dedup, List.mem_map, List.mem_map]
+    constructor
+    · rintro ⟨e, he, hfe⟩
+      obtain ⟨o, ho, hfo⟩ := (hh.edges fp).mp ⟨e, he, hfe⟩
+      exact ⟨o, ho, hfo⟩
+    · rintro ⟨o, ho, hfo⟩
+      obtain ⟨e, he, hfe⟩ := (hh.edges fp).mpr ⟨o, ho, hfo⟩
+      exact ⟨e, he, hfe⟩
+
+/-! ### `AppendFromPEMErr` / `AppendFromPEM` -/
+
+/-- For every graph, stream and `root` flag, `AppendFromPEMErr` is the `AddCert`/`AddRoot` sequence `pemOps` of
+    the certificates of the stream (up to the first stretch of 64 KiB without a block), its first result the
+    number of those certificates (duplicates counted), its second the number of unparsable blocks, its third
+    non-nil exactly when the scanner gave up. -/
+theorem appendFromPEMErr_is_run (V : Ver) (g : Graph) (items : List PemItem) (root : Bool) :
+    appendFromPEMErr V g items root =
+      match run V g (pemOps root items) with
+      | .ok g' => .ok ⟨(pemCerts items).length, pemErrs items, pemTooLong items, g'⟩
+      | _ => .panic := by
+  unfold appendFromPEMErr
+  rw [pemLoop_eq_run, pemCount_eq]
+  cases run V g (pemOps root items) <;> simp
+
+/-- On a graph built by any operations `ops0`, `AppendFromPEMErr` never panics, and the graph it leaves is the
+    graph of the history `ops0 ++ pemOps root items` — so every theorem above applies to it. -/
+theorem appendFromPEMErr_spec (V : Ver) (ops0 : List Op) (items : List PemItem) (root : Bool) :
+    ∃ g0 g, run V Graph.empty ops0 = .ok g0 ∧
+      appendFromPEMErr V g0 items root = .ok ⟨(pemCerts items).length, pemErrs items, pemTooLong items, g⟩ ∧
+      run V Graph.empty (ops0 ++ pemOps root items) = .ok g := by
+  obtain ⟨g0, h0, hinv0⟩ := run_inv (V := V) ops0 (inv_empty V)
+  obtain ⟨g, h1, _⟩ := run_inv (V := V) (pemOps root items) hinv0
+  refine ⟨g0, g, h0, ?_, ?_⟩
+  · rw [appendFromPEMErr_is_run, h1]
+  · rw [run_append, h0]; exact h1
+
+/-- the deprecated wrapper returns the same count and leaves the same graph -/
+theorem appendFromPEM_spec (V : Ver) (g0 : Graph) (items : List PemItem) (root : Bool) (o : PemOut)
+    (h : appendFromPEMErr V g0 items root = .ok o) : appendFromPEM V g0 items root = .ok (o.count, o.g) := by
+  unfold appendFromPEM
+  rw [h]
+
+/-- with `root = true` the `AddCert` call in the loop is redundant: the stream acts like `AddRoot` of each of its
+    certificates -/
+theorem pem_root_is_addRoot (V : Ver) (items : List PemItem) : ∀ {g : Graph}, Inv V g →
+    run V g (pemOps true items) = run V g ((pemCerts items).map Op.root) := by
+  induction items with
+  | nil => intro g _; rfl
+  | cons it rest ih =>
+    intro g hinv
+    cases it with
+    | junk => exact ih hinv
+    | bad => exact ih hinv
+    | big => rfl
+    | cert c =>
+      obtain ⟨g1, hadd, hinv1, _, _⟩ := addCert_spec hinv c
+      obtain ⟨g2, hroot, hinv2⟩ := step_inv hinv (Op.root c)
+      simp only [step] at hroot
+      have h2 : addRoot V g1 c = .ok g2 := by rw [addRoot_after_addCert hinv hadd]; exact hroot
+      simp only [pemOps, pemCerts, if_true, List.cons_append, List.nil_append, List.map_cons, run, step, hadd, h2, hroot]
+      exact ih hinv2
+
+/-- the order of the blocks in the stream (and junk, unparsable blocks, repetitions) does not matter: two streams
+    with the same certificates, appended with the same `root` flag to graphs with the same certificates, give the
+    same graph up to the choice among several verifying issuers -/
+theorem pem_stream_order_independent (V : Ver) (ops0 : List Op) (items items' : List PemItem) (root : Bool)
+    (hsame : ∀ c, c ∈ pemCerts items ↔ c ∈ pemCerts items')
+    (hfp : FpInj (ops0 ++ pemOps root items)) :
+    ∃ g0 o o', run V Graph.empty ops0 = .ok g0 ∧ appendFromPEMErr V g0 items root = .ok o ∧
+      appendFromPEMErr V g0 items' root = .ok o' ∧ SameUpToIssuerChoice V o.g o'.g := by
+  have hs : SameCerts (ops0 ++ pemOps root items) (ops0 ++ pemOps root items') := by
+    apply SameCerts.of_mem
+    intro o
+    simp only [List.mem_append, mem_pemOps]
+    constructor
+    · rintro (h | ⟨c, hc, h⟩)
+      · exact Or.inl h
+      · exact Or.inr ⟨c, (hsame c).mp hc, h⟩
+    · rintro (h | ⟨c, hc, h⟩)
+      · exact Or.inl h
+      · exact Or.inr ⟨c, (hsame c).mpr hc, h⟩
+  obtain ⟨g, g', hr, hr', hsim⟩ := graph_determined_by_certificate_sets V _ _ hs hfp
+  obtain ⟨g0, g1, h0, h1, h2⟩ := appendFromPEMErr_spec V ops0 items root
+  obtain ⟨g0', g1', h0', h1', h2'⟩ := appendFromPEMErr_spec V ops0 items' root
+  rw [h0] at h0'; cases h0'
+  rw [hr] at h2; cases h2
+  rw [hr'] at h2'; cases h2'
+  exact ⟨g0, _, _, h0, h1, h1', hsim⟩
+
+
 /-! ### the hypotheses are satisfiable: a three-certificate chain inserted leaf first (two fix-ups) -/
 namespace Ex
 def r : Cert := { fp := 0, subj := 0, key := 0, iss := 0 }
@@ -298,6 +505,45 @@ example : ∃ g, run V Graph.empty ops = .ok g ∧ Unambiguous V g := by
 example : ∃ g g', run V Graph.empty [Op.add r, Op.add r2, Op.add i] = .ok g ∧ run V Graph.empty [Op.add r2, Op.add i, Op.add r] = .ok g' ∧
     (∃ e ∈ g.edges, e.cert = i ∧ e.issuer = some (0, 0)) ∧ (∃ e ∈ g'.edges, e.cert = i ∧ e.issuer = some (0, 9)) := by
   refine ⟨_, _, rfl, rfl, ?_, ?_⟩ <;> decide
+/-- first verifying node: with both (0,0) and (0,9) able to verify `i`, the issuer is whichever node was created first -/
+example : firstVer V [(0, 9), (1, 1), (0, 0)] i.iss i.fp = some (0, 9) ∧ firstVer V [(0, 0), (0, 9), (1, 1)] i.iss i.fp = some (0, 0) := by
+  decide
+/-- same certificates, same roots, different multiplicities and forms -/
+example : SameCerts ops [Op.add r, Op.add l, Op.root r, Op.add i, Op.add i] := by
+  unfold SameCerts
+  constructor
+  · intro c
+    constructor
+    · rintro ⟨o, ho, rfl⟩
+      simp only [ops, List.mem_cons, List.not_mem_nil, or_false] at ho
+      rcases ho with rfl | rfl | rfl
+      · exact ⟨Op.root r, by simp, rfl⟩
+      · exact ⟨Op.add i, by simp, rfl⟩
+      · exact ⟨Op.add l, by simp, rfl⟩
+    · rintro ⟨o, ho, rfl⟩
+      simp only [List.mem_cons, List.not_mem_nil, or_false] at ho
+      rcases ho with rfl | rfl | rfl | rfl | rfl
+      · exact ⟨Op.root r, by simp [ops], rfl⟩
+      · exact ⟨Op.add l, by simp [ops], rfl⟩
+      · exact ⟨Op.root r, by simp [ops], rfl⟩
+      · exact ⟨Op.add i, by simp [ops], rfl⟩
+      · exact ⟨Op.add i, by simp [ops], rfl⟩
+  · intro c; simp [ops]
+example : FpInj (Op.add r :: ops) := by unfold FpInj; decide
+/-- same certificate sets and same node creation order (0,0) > (1,1) > (2,2): equal graphs -/
+example : ∃ g g', run V Graph.empty ops = .ok g ∧ run V Graph.empty [Op.add r, Op.add i, Op.root r, Op.add l, Op.add i] = .ok g' ∧
+    g.nodes.map (·.key) = g'.nodes.map (·.key) := ⟨_, _, rfl, rfl, by decide⟩
+/-- a stream: junk, `i`, an unparsable block, `l`, `i` again, then 64 KiB of text, then `r` (never reached) -/
+def stream : List PemItem := [.junk, .cert i, .bad, .cert l, .cert i, .big, .cert r]
+example : appendFromPEMErr V Graph.empty stream false = .ok
+    ⟨3, 1, true, { nodes := [⟨(1, 1), [((2, 2), [2])], []⟩, ⟨(2, 2), [], [((1, 1), [2])]⟩],
+                   edges := [⟨i, none, (1, 1), false⟩, ⟨l, some (1, 1), (2, 2), false⟩], missing := [(0, [1])] }⟩ := by decide
+example : FpInj ([Op.root r] ++ pemOps true stream) := by unfold FpInj; decide
+example : ∀ c, c ∈ pemCerts stream ↔ c ∈ pemCerts [.cert l, .cert i] := by
+  intro c; simp [pemCerts, stream]; tauto
+example : Inv V Graph.empty := inv_empty V
+example : ∃ o, appendFromPEMErr V Graph.empty stream true = .ok o ∧ isRoot o.g i = true ∧ isRoot o.g r = false :=
+  ⟨_, rfl, by decide, by decide⟩
 end Ex
 
 end ZV.C10
